@@ -7,12 +7,35 @@ import Ops.Metadata
 import Ops.BitCoders
 import Ops.MeshTools
 import Ops.Symbols
+import Ops.E2EProps
+import Ops.IO
+import Ops.SeqEnc
+import Ops.EncBuf
+import Ops.C0506
+import Ops.KdTree
+import Ops.KdEnc
 import Ops.Robust
 /- Line-protocol driver of the executable model: one op per line in, one line out. -/
 open Draco
 
-def allOps : List (String × (List String → String)) :=
-  Ops.coreOps ++ Ops.codecOps ++ Ops.transformOps ++ Ops.quantOps ++ Ops.cornerTableOps ++ Ops.metadataOps ++ Ops.bitCoderOps ++ Ops.meshToolOps ++ Ops.symbolOps ++ Ops.robustOps
+def allOps : List (String × (List String → String)) := List.flatten [
+  Ops.coreOps,
+  Ops.codecOps,
+  Ops.transformOps,
+  Ops.quantOps,
+  Ops.cornerTableOps,
+  Ops.metadataOps,
+  Ops.bitCoderOps,
+  Ops.meshToolOps,
+  Ops.symbolOps,
+  Ops.ioOps,
+  Ops.seqEncOps,
+  Ops.encBufOps,
+  Ops.c0506Ops,
+  Ops.kdTreeOps,
+  Ops.kdEncOps,
+  Ops.e2ePropsOps,
+  Ops.robustOps]
 
 def dispatch (line : String) : String :=
   match (line.trimAscii.toString.splitOn " ").filter (· ≠ "") with
